@@ -134,3 +134,26 @@ V('c14-i-regression-any-spelling', 'C14', None, None, None, rule='C14-I', edits=
 V('c14-i-lower-bound-only', 'C14', 'hl7apy/core.py', _CANON, "        if position < 1:\n            return False\n", rule='C14-I')
 V('twin-c14-i-isdigit', 'C14', 'hl7apy/core.py', _CANON,
   "        if not index.isdigit() or index.startswith('0'):\n            return False\n", expect='clean')
+
+# ---------------------------------------------------------------- fourth round of seeded changes (Cxx-d)
+V('c14-s-longname-map-left-out', 'C14', 'hl7apy/core.py',
+  "            for k, v in iteritems(structure):\n                if k != 'datatype':  # avoid maximum recursion\n                    setattr(self, k, v)",
+  "            for k in ('reference', 'structure_by_name', 'ordered_children', 'repetitions'):\n                if k in structure:\n                    setattr(self, k, structure[k])",
+  rule='C14-S')
+V('c14-s-exclude-longname', 'C14', 'hl7apy/core.py',
+  "                if k != 'datatype':  # avoid maximum recursion", "                if k not in ('datatype', 'structure_by_longname'):", rule='C14-S')
+V('twin-c14-s-exclude-more-nonlayout', 'C14', 'hl7apy/core.py',
+  "                if k != 'datatype':  # avoid maximum recursion", "                if k not in ('datatype',):", expect='clean')
+V('c08-p-path-cache', 'C08', 'hl7apy/parser.py',
+  "def _get_segment_reference(segment_name, parents_ref):\n    ref = None",
+  "_SEEN = {}\n\n\ndef _get_segment_reference(segment_name, parents_ref):\n    _SEEN[segment_name] = parents_ref[-1][0]\n    ref = None", rule='C08-P')
+V('c10-v-alias-proxy-element', 'C10', 'hl7apy/core.py',
+  "            value = value[0].to_er7()", "            value = value[0] if value[0].version == self.element.version else value[0].to_er7()",
+  rule='C10-V')
+V('twin-c10-v-named-first', 'C10', 'hl7apy/core.py',
+  "            value = value[0].to_er7()", "            value = value[0].to_er7(trailing_children=False)", expect='clean')
+V('c18-n-default-separator', 'C18', 'hl7apy/core.py',
+  "            if text[:3] != child_name:\n                reference = None",
+  "            if text.split(get_default_encoding_chars()['FIELD'], 1)[0] != child_name:\n                reference = None", rule='C18-N')
+V('c03-z-first-digits', 'C03', 'hl7apy/core.py', "            field_index = int(obj.name[4:])", "            field_index = int(obj.name[2:3] or 0)",
+  rule='C03-Z')
